@@ -52,9 +52,51 @@ type vfc34World struct {
 type vfc34Shift struct {
 	objstore.Bucket
 	w *vfc34World
+	// one read fault for the sync that is running: the faultN-th Get fails as a call (mode 0) or hands out a reader that
+	// breaks after 0 / half / all-but-one bytes (mode 1..3)
+	faultN, faultMode, gets int
+	faultHit                bool
+}
+
+func (s *vfc34Shift) arm(n, mode int) { s.faultN, s.faultMode, s.gets, s.faultHit = n, mode, 0, false }
+
+func (s *vfc34Shift) disarm() bool {
+	hit := s.faultHit
+	s.faultN, s.faultHit = 0, false
+	return hit
 }
 
 func (s *vfc34Shift) Get(ctx context.Context, name string) (io.ReadCloser, error) {
+	if s.faultN > 0 {
+		s.gets++
+		if s.gets == s.faultN {
+			s.faultHit = true
+			if s.faultMode == 0 {
+				return nil, vfcfbErrTransient
+			}
+			rc, err := s.get(ctx, name)
+			if err != nil {
+				return rc, err
+			}
+			body, _ := io.ReadAll(rc)
+			_ = rc.Close()
+			n := 0
+			switch s.faultMode {
+			case 2:
+				n = len(body) / 2
+			case 3:
+				n = len(body) - 1
+			}
+			if n < 0 {
+				n = 0
+			}
+			return &vfcfbCutReader{data: body[:n]}, nil
+		}
+	}
+	return s.get(ctx, name)
+}
+
+func (s *vfc34Shift) get(ctx context.Context, name string) (io.ReadCloser, error) {
 	rc, err := s.Bucket.Get(ctx, name)
 	if err != nil || path.Base(name) != metadata.DeletionMarkFilename {
 		return rc, err
@@ -130,7 +172,7 @@ func TestVF_C34(t *testing.T) {
 	defer r.Finish()
 	r.Rule("case = one schedule: parameters (delete delay D in {2h,48h}, gateway ignore delay I < D, max sync lag L < D-I on a virtual grid, 1..3 gateways) and a PRNG-driven interleaving of compactor steps " +
 		"(real block.Upload of the really compacted result, real MarkForDeletion of each source, real BlocksCleaner.DeleteMarkedBlocks behind a real compactor-side fetcher) with gateway syncs (real MetaFetcher + " +
-		"IgnoreDeletionMarkFilter(I) + DefaultDeduplicateFilter), syncs also placed between the single bucket mutations of Upload/Delete; virtual time via rewritten DeletionTime; oracle after every bucket mutation and every sync: " +
+		"IgnoreDeletionMarkFilter(I) + DefaultDeduplicateFilter), syncs also placed between the single bucket mutations of Upload/Delete; every 5th sync of an eager and every 3rd sync of a lazy/adversarial gateway suffers one read fault (a meta.json / deletion-mark.json get fails, or succeeds with a reader that breaks after 0 bytes / half / one byte short): a sync that reports the failure keeps the previous view (plus newly seen blocks) and is retried at once, a sync that reports success is taken as complete; virtual time via rewritten DeletionTime; oracle after every bucket mutation and every sync: " +
 		"every sample of the source blocks is held by a block that some gateway loaded at its last sync and that still exists completely; every 10th schedule violates the premise (L > D-I, adversarial gateway) and is expected to fire " +
 		"(calibration, not reported); distinct = schedule signature; non-trivial = all sources were deleted by the cleaner during the schedule")
 	n := r.N(300, 12000)
@@ -328,11 +370,38 @@ func vfc34Schedule(ctx context.Context, t *testing.T, r *vfkit.Run, rng *rand.Ra
 		}
 	}
 	syncGW := func(g *vfc34Gateway) {
+		faulty := rng.Intn(5) == 0 && len(g.loaded) > 0 // never the gateway's first sync: it serves nothing before it
+		if g.style != "eager" && len(g.loaded) > 0 {
+			faulty = rng.Intn(3) == 0 // gateways that sync rarely see more change per sync
+		}
+		n, mode := 1+rng.Intn(5), rng.Intn(4)
+		if rng.Intn(2) == 0 {
+			n = 1 // the first get of a sync is the meta.json of a block the gateway has not loaded yet, if there is one
+		}
 		step(g.name, func() {
+			if faulty {
+				shift.arm(n, mode) // one read of this sync (meta.json / deletion-mark.json) fails or its stream breaks
+			}
 			metas, _, err := g.fetcher.Fetch(ctx)
-			if err != nil {
+			hit := shift.disarm()
+			if err != nil && !hit {
 				t.Fatalf("rig: gateway sync on in-memory bucket failed: %v", err)
 			}
+			if hit {
+				events = append(events, fmt.Sprintf("%s!read-fault-%d", g.name, mode))
+			}
+			if err != nil {
+				// as BucketStore.SyncBlocks does on a failed sync: blocks of an incomplete view are added, nothing is dropped; without a view nothing changes
+				for id, m := range metas {
+					g.loaded[id] = m
+				}
+				check("failed-sync " + g.name)
+				// the gateway retries at once (same virtual instant)
+				if metas, _, err = g.fetcher.Fetch(ctx); err != nil {
+					t.Fatalf("rig: gateway sync on in-memory bucket failed: %v", err)
+				}
+			}
+			// a sync that reports success is taken as a complete view, as the real gateway does
 			g.loaded = metas
 			g.lastSync = w.vnow
 		})
